@@ -17,6 +17,12 @@ PROPS = {
         'k_groups': [],
         'design_ref': 'DESIGN.md §3 C11',
     },
+    'C06': {
+        'title': 'Binding slots are allocated completely, contiguously and without overlap',
+        'v_units': ['bindings'],
+        'k_groups': [],
+        'design_ref': 'DESIGN.md §3 C06',
+    },
     'C13': {
         'enabled': False,
         'title': 'Compile-time constant evaluation matches run-time semantics',
